@@ -949,7 +949,7 @@ Section Sim.
           destruct (inv_set top lv st asg (p_name p) r p v HW HI) as [X1 X2]; auto.
           { apply sp_find_In; auto. apply lv_wf_nodup; auto. }
           split; auto.
-        * destruct r as [z|m|b| |l];
+        * destruct r as [z|m|b| |l|dx dy];
             try (destruct (level_subs lv); reflexivity).
           destruct (level_subs lv) as [subs|] eqn:ES.
           2:{ rewrite (sl_sub_none lv cn mn m HW); [reflexivity|rewrite ES; exact I]. }
@@ -1177,13 +1177,13 @@ Section Sim.
       exists path, (CFn n s), (nest [mkf top (LComp (CFn n s)) asg None]).
       split; [|split; [auto|split; [auto|apply run_fn; auto]]].
       cbn [dispatch_loop]. rewrite HCf.
-      destruct (assoc s_subcommand (nest [mkf top (LComp (CFn n s)) asg None])) as [[[z|m|b0| |l]|x]|]; try reflexivity.
+      destruct (assoc s_subcommand (nest [mkf top (LComp (CFn n s)) asg None])) as [[[z|m|b0| |l|dx dy]|x]|]; try reflexivity.
       rewrite (comps_get_snoc_leaf path HP kids0 (CFn n s) m); auto.
     - (* a class without methods: like a function *)
       exists path, (CCls n i []), (nest [mkf top (LComp (CCls n i [])) asg None]).
       split; [|split; [auto|split; [auto|apply run_cls0; auto]]].
       cbn [dispatch_loop]. rewrite HCf.
-      destruct (assoc s_subcommand (nest [mkf top (LComp (CCls n i [])) asg None])) as [[[z|m|b0| |l]|x]|]; try reflexivity.
+      destruct (assoc s_subcommand (nest [mkf top (LComp (CCls n i [])) asg None])) as [[[z|m|b0| |l|dx dy]|x]|]; try reflexivity.
       rewrite (comps_get_snoc_leaf path HP kids0 (CCls n i []) m); auto.
     - (* a class and one of its methods *)
       exists path, (CCls n i ms), (nest (mkf top (LComp (CCls n i ms)) asg (Some m) :: fs)).
@@ -1499,7 +1499,7 @@ Section Sim.
       + destruct (sp_assignable conv as_pos i true k r); [apply IH|discriminate].
       + destruct (nth_error _ npos) as [p|].
         * destruct (conv (sp_ty p) r); [apply IH|discriminate].
-        * destruct r as [z|m|b| |l]; try discriminate. cbn [sl_sub].
+        * destruct r as [z|m|b| |l|dx dy]; try discriminate. cbn [sl_sub].
           destruct (assoc m ms) as [s|] eqn:EA; [|discriminate].
           destruct (sp_docs conv as_pos (SMeth n m s) (secs_for m secs) [] []) as [[asg' secs']|]; [|discriminate].
           destruct (sp_finish conv i asg) as [b1|] eqn:EF; [|discriminate].
@@ -1521,7 +1521,7 @@ Section Sim.
     induction toks as [|t toks IH]; intros asg npos secs log ret; cbn [sp_walk sl_sig]; [discriminate|].
     destruct t as [k r|r|d].
     - unfold sp_assignable. simpl. discriminate.
-    - simpl filter. destruct npos; simpl nth_error; (destruct r as [z|m|b| |l]; try discriminate); cbn [sl_sub];
+    - simpl filter. destruct npos; simpl nth_error; (destruct r as [z|m|b| |l|dx dy]; try discriminate); cbn [sl_sub];
         (destruct (str_eqb m s__help) eqn:E; [discriminate|]);
         (destruct (assoc m kids) as [c|] eqn:EA; [|discriminate]);
         (destruct (slevel_of c) as [lv'|] eqn:ES; [|discriminate]);
@@ -1558,7 +1558,7 @@ Section Sim.
   (* ---- the clauses of the property about required / Optional parameters, on the code-shaped table *)
   Lemma required_iff_no_default p a :
     arg_of_param false as_pos p = Some a ->
-    (a_req a = true <-> (p_default p = None /\ is_optional (p_ty p) = false)) /\
+    (a_req a = true <-> (p_default p = None /\ is_optional (p_ty p) = false /\ ty_default (p_ty p) = None)) /\
     (a_pos a = true <-> (a_req a = true /\ as_pos = true)).
   Proof.
     unfold arg_of_param. destruct (p_default p) as [v|]; simpl.
@@ -1566,7 +1566,7 @@ Section Sim.
       intuition congruence.
     - rewrite andb_false_r. destruct (is_optional (p_ty p)); simpl.
       + intro H. inversion H; subst; simpl. intuition congruence.
-      + intro H. inversion H; subst; simpl. intuition congruence.
+      + destruct (ty_default (p_ty p)); simpl; intro H; inversion H; subst; simpl; intuition congruence.
   Qed.
 
   (* since /repo 2f69862 also for a private name *)
